@@ -372,6 +372,18 @@ RULES = {
     # R31: `s.rsplit(p).next()` -> `s.vrsplit_first(p)`, `s.split(c).next()` -> `s.vsplit_first(c)` (Split / RSplit iterators have no
     # specification), `&name[1..]` -> `name.vslice_from(1)`, `.parse()` -> `.vparse_u32()` (get_highest_index parses a u32)
     "R31": [(".rsplit($C).next()", ".vrsplit_first($C)"), (".split($C).next()", ".vsplit_first($C)"), ("&name[1..]", "name.vslice_from(1)"), (".parse()", ".vparse_u32()")],
+    # R22g: `x.as_ref()` for `x: S`, `S: AsRef<str>` (x = `s` or `spec`) -> shim `vas_ref(&x)` (the general form of R22)
+    "R22g": [("s.as_ref()", "vas_ref(&s)"), ("spec.as_ref()", "vas_ref(&spec)")],
+    # R30c: `continue` in the copied body of one iteration of the loop of LogSpecification::parse -> `return (parse_errs, dirs)`
+    "R30c": [("continue", "return (parse_errs, dirs)")],
+    # R32 (computed): `format!("..", ..)` whose literal has at least one character outside `{..}` placeholders -> `vformat!("..", ..)`
+    # (the unit's macro: some non-empty String; `core::fmt` is outside the verifier)
+    "R32": [],
+    # R33: `s.chars().any(char::is_whitespace)` -> shim `s.vany_whitespace()`
+    "R33": [(".chars().any(char::is_whitespace)", ".vany_whitespace()")],
+    # R34: the fn items `ToString::to_string` / `str::trim` as closure values on `Option<&str>` -> a closure with the contract of the function / the shim method `vmap_trim()` (a closure over the `&'a str` pieces of a Split fails Option::map's precondition in this Verus)
+    "R34": [(".map(ToString::to_string)", ".vmap_to_string()"),
+            (".map(str::trim)", ".vmap_trim()")],
     # R28 (computed): byte-offset string operations -> shims over the UTF-8 model of the unit (`byte_len` = sum of the characters' widths):
     # `s.find(c)` -> `s.vfind(c)`, `&s[..end]` -> `s.vslice_to(end)` (precondition: `end` is a character boundary), `&cow[..]` -> `vfull(&cow)`
     "R28": [],
@@ -475,6 +487,19 @@ def apply_rule(sf, a, b, rule, edits):
                     continue
                 edits.replace(sigidx[p], sigidx[p + 5] + 1, [Piece(".v%s_filter_map" % tt[1], sf, toks[sigidx[p]].start)])
                 edits.replace(tail[0], tail[3] + 1, [Piece("")])
+                hits += 1
+        return hits
+    if rule == "R32":
+        import re as _re
+        for q in range(len(sigidx) - 3):
+            t0, t1, t2, t3 = (toks[sigidx[q + d]] for d in range(4))
+            if t0.text == "format" and t1.text == "!" and t2.text == "(" and t3.kind == "str":
+                lit = t3.text
+                body = lit[lit.index('"') + 1:lit.rindex('"')]
+                rest = _re.sub(r"\{[^{}]*\}", "", body.replace("{{", "x").replace("}}", "x"))
+                if not rest.strip("\\ \n"):
+                    raise ExtractError("unsupported: format! without a literal character under R32")
+                edits.replace(sigidx[q], sigidx[q] + 1, [Piece("vformat", sf, t0.start)])
                 hits += 1
         return hits
     if rule == "R28":
@@ -894,6 +919,7 @@ class Directive:
         self.span_upto = None
         self.span_semi = False
         self.span_before = False
+        self.span_toend = False
         self.span_tail = False
         self.span_block = None
         self.span_block_nth = None
@@ -1165,12 +1191,18 @@ def _render_span(d, it, repo_root, registry):
         f = find_seq(sf, it.body_open, it.body_close, d.span_from or "")
         if not f:
             raise ExtractError("anchor lost: span start %r not found in %s" % (d.span_from, it.name))
-        u = find_seq(sf, f[0], it.body_close, d.span_upto or "")
+        u = find_seq(sf, f[0], it.body_close, d.span_upto or "") if not d.span_toend else f
         if not u:
             raise ExtractError("anchor lost: span end %r not found in %s" % (d.span_upto, it.name))
         j = u[1]
     if d.span_block or d.span_tail:
         pass
+    elif d.span_toend:
+        # up to the end of the function body (its tail expression included)
+        e = it.body_close - 1
+        while toks[e].kind in TRIVIA:
+            e -= 1
+        end = e + 1
     elif d.span_before:
         end = u[0]
     elif d.span_semi:
@@ -1458,7 +1490,7 @@ def render_item(d, it, repo_root, registry):
     return out
 
 
-OPTION_KW = ("ret", "req", "ens", "props", "loop", "closure", "rule", "attr", "dropattr", "canary", "rename", "prefix", "from", "upto", "uptosemi", "before", "tail", "block", "blocknth", "bytesconst", "count", "execconst", "derivedefault", "unmodelled")
+OPTION_KW = ("ret", "req", "ens", "props", "loop", "closure", "rule", "attr", "dropattr", "canary", "rename", "prefix", "from", "upto", "uptosemi", "before", "tail", "toend", "block", "blocknth", "bytesconst", "count", "execconst", "derivedefault", "unmodelled")
 _lab_re = re.compile(r"^(req|ens|inv)(\[([^\]]+)\])?\s+(.*)$", re.S)
 
 
@@ -1574,6 +1606,9 @@ def parse_options(d, lines, unit_name):
             # the span ends right before the (first) statement that starts with the text
             d.span_upto = rest
             d.span_before = True
+        elif w == "toend":
+            # the span runs from `from` to the end of the function body
+            d.span_toend = True
         elif w == "uptosemi":
             # the span ends with the `;` that closes the statement containing the text (not with a block)
             d.span_upto = rest
